@@ -291,7 +291,7 @@ theorem C13_alias_conflict_rejected (tasks : List Task) (hwf : WF tasks)
     have c1 : claimOf b1.path b1.host kv1 ∈ claims tasks := mem_claims.mpr ⟨b1, h1, kv1, hk1, rfl⟩
     have c2 : claimOf b2.path b2.host kv2 ∈ claims tasks := mem_claims.mpr ⟨b2, h2, kv2, hk2, rfl⟩
     have := build_alias_same hb hs hv hr c1 c2 (by simp [claimOf, ha]) (by simp [claimOf, ha2])
-      (by simp [claimOf, ha, ha2, hsame])
+      (by simp [claimOf, ha2, hsame])
     rw [claimOf_target, claimOf_target] at this
     exact hdiff this
 
@@ -322,8 +322,6 @@ theorem C13_alias_equal_accepted (tasks : List Task) (hk : keysSane (claims task
     ∃ bm, build [] (claims tasks) = .ok bm :=
   build_ok_of_equal_ipc (claims_sane hk) heq (fun _ _ _ v hv => by simp [Assoc.get] at hv)
 
-/-! ## the model meets the Spec -/
-
 /-- `clash` finds two alias claims with one key and different target-form endpoints. -/
 theorem clash_mem {cs : List Claim} (h : clash cs = true) :
     ∃ c ∈ cs, ∃ d ∈ cs, c.alias = true ∧ d.alias = true ∧ d.key = c.key ∧ d.target ≠ c.target := by
@@ -337,10 +335,58 @@ theorem clash_mem {cs : List Claim} (h : clash cs = true) :
     · obtain ⟨x, hx, y, hy, r⟩ := ih h
       exact ⟨x, List.mem_cons_of_mem _ hx, y, List.mem_cons_of_mem _ hy, r⟩
 
-/-- Everything together: on every well-formed input without inbound targets the
-    model's outcome satisfies the full Spec that the correspondence run also
-    evaluates on the implementation's outcome. -/
-theorem C13_model_meets_spec (tasks : List Task) (hwf : WF tasks) (hnt : noInboundTarget tasks = true) :
+/-- FULL-STRENGTH clause 4 at the level of DECLARATIONS (kept visible; FALSE of
+    the code, see `C13_finding_alias_redefined_within_task`): whenever two inbound
+    channels — of any tasks — claim one global alias for different endpoints, the
+    configuration is rejected. -/
+def C13_alias_declared_full : Prop :=
+  ∀ (tasks : List Task), WF tasks → clash (allDeclClaims tasks) = true → ∃ e, configure tasks = .error e
+
+/-- What IS proved: the same whenever every declared alias made it into its
+    task's local bind map with the declaring channel's endpoint — which the launch
+    guarantees unless two channels of ONE task name the same alias. -/
+theorem C13_alias_declared_partial (tasks : List Task) (hwf : WF tasks)
+    (hadv : ∀ t ∈ tasks, aliasesAdvertised t) (hcl : clash (allDeclClaims tasks) = true) :
+    configure tasks = .error .aliasConflict := by
+  obtain ⟨c, hc, d, hd, _, _, hk, hne⟩ := clash_mem hcl
+  obtain ⟨t1, ht1, hc1⟩ := mem_allDeclClaims.mp hc
+  obtain ⟨t2, ht2, hd2⟩ := mem_allDeclClaims.mp hd
+  obtain ⟨ch1, hch1, hg1, hl1, hk1, hh1⟩ := mem_declClaims hc1
+  obtain ⟨ch2, hch2, hg2, hl2, hk2, hh2⟩ := mem_declClaims hd2
+  obtain ⟨kv1, hkv1, hkk1, hkr1⟩ := hadv t1 ht1 ch1 hch1 hg1 _ hl1
+  obtain ⟨kv2, hkv2, hkk2, hkr2⟩ := hadv t2 ht2 ch2 hch2 hg2 _ hl2
+  apply C13_alias_conflict_rejected tasks hwf t1 t2 ht1 ht2 kv1 kv2 hkv1 hkv2
+  · rw [hkk1]; exact isAlias_aliasKey _
+  · rw [hkk1, hkk2, ← hk1, ← hk2, hk]
+  · intro heq
+    apply hne
+    unfold Claim.target
+    rw [hh1, hh2, ← hkr1, ← hkr2]
+    exact heq.symm
+
+/-- The finding, machine-checked on the model: one task whose template binds
+    `data` and `mon`, both with `global: g`. The launch gives `data` port 9000 and
+    `mon` port 9001 and keeps `::g → 9001`; two different endpoints claim `::g`,
+    the configuration goes through, and whoever connects to `::g` reaches `mon`. -/
+theorem C13_finding_alias_redefined_within_task : ¬ C13_alias_declared_full := by
+  intro h
+  let w : List Task :=
+    [ { path := "root.a", host := "h1",
+        inbound := [⟨"data", .default, .tcp, "", "g"⟩, ⟨"mon", .default, .tcp, "", "g"⟩], outbound := [],
+        loc := [("::g", .tcp "*" 9001 .default), ("data", .tcp "*" 9000 .default), ("mon", .tcp "*" 9001 .default)] } ]
+  obtain ⟨e, he⟩ := h w (by decide) (by decide)
+  have hok : configure w =
+      .ok [[("data", ⟨.bind, "tcp://*:9000", .default⟩), ("mon", ⟨.bind, "tcp://*:9001", .default⟩)]] := by decide
+  rw [hok] at he
+  cases he
+
+/-! ## the model meets the Spec -/
+
+/-- Everything together: on every well-formed input outside the two excluded
+    classes the model's outcome satisfies the full-strength Spec — the predicate
+    the correspondence run evaluates on the implementation's outcome. -/
+theorem C13_model_meets_spec (tasks : List Task) (hwf : WF tasks) (hnt : noInboundTarget tasks = true)
+    (hadv : ∀ t ∈ tasks, aliasesAdvertised t) :
     Spec tasks (configure tasks) := by
   cases hcfg : configure tasks with
   | ok res =>
@@ -350,8 +396,32 @@ theorem C13_model_meets_spec (tasks : List Task) (hwf : WF tasks) (hnt : noInbou
     · intro hu
       obtain ⟨e, he⟩ := C13_unmatched_fails tasks hu
       rw [hcfg] at he; cases he
+    · cases hcl : clash (allDeclClaims tasks) with
+      | false => simp [hcl]
+      | true =>
+        exfalso
+        have := C13_alias_declared_partial tasks hwf hadv hcl
+        rw [hcfg] at this; cases this
+  | error e =>
+    cases e with
+    | unmatched => exact C13_unmatched_only_if tasks hcfg
+    | aliasConflict => exact C13_alias_error_only_if_shared tasks hwf hcfg
+
+/-- Without the two hypotheses the code still meets the weakened Spec (bind
+    clause only for target-less inbound channels, alias claims as they appear in
+    the local bind maps) — on EVERY well-formed input. -/
+theorem C13_model_meets_weak_spec (tasks : List Task) (hwf : WF tasks) :
+    SpecW true true tasks (configure tasks) := by
+  cases hcfg : configure tasks with
+  | ok res =>
+    obtain ⟨bm, hb, hm⟩ := configure_ok hcfg
+    refine ⟨(mapE_ok hm).1, C13_matched tasks res hwf hcfg,
+      C13_explicit_passthrough tasks res hwf hcfg, ?_, ?_⟩
+    · intro hu
+      obtain ⟨e, he⟩ := C13_unmatched_fails tasks hu
+      rw [hcfg] at he; cases he
     · cases hcl : clash (claims tasks) with
-      | false => rfl
+      | false => simp [hcl]
       | true =>
         exfalso
         obtain ⟨hs, hv, hr⟩ := wf_claims hwf
@@ -398,7 +468,7 @@ theorem mergeBy_find {α} (name : α → String) (n : String) (hp lp : List α) 
       simp only [findName, List.find?_append]
       cases hf : List.find? (fun c => name c == n) hp with
       | some x => simp
-      | none => cases hvn : name v == n <;> simp [List.find?_cons, hvn]
+      | none => cases hvn : name v == n <;> simp [hvn]
 
 /-- The declaration in force for channel `n` of a task is the first one found
     going from the task role up through its ancestors, and only if no role
@@ -427,7 +497,7 @@ example :
       { path := "root.c", host := "epn1", inbound := [],
         outbound := [⟨"in", .default, "root.p:data"⟩, ⟨"m", .default, "::mon"⟩, ⟨"x", .nanomsg, "tcp://elsewhere:1"⟩],
         loc := [] }
-    WF [p, c] ∧ noInboundTarget [p, c] = true ∧
+    WF [p, c] ∧ noInboundTarget [p, c] = true ∧ (∀ t ∈ [p, c], aliasesAdvertised t) ∧
     configure [p, c] = .ok
       [ [("data", ⟨.bind, "tcp://*:9000", .zeromq⟩), ("mon", ⟨.bind, "ipc://@o2ipc-%0", .shmem⟩)],
         [("in", ⟨.connect, "tcp://flp1:9000", .zeromq⟩), ("m", ⟨.connect, "ipc://@o2ipc-%0", .shmem⟩),
